@@ -29,7 +29,9 @@ PLAN = {
     ('C01', 'quick'): [('Two', 5, 'Args1', False, True, 'AllOps', 'mc', 0),
                        ('Chain', 4, 'Args1', False, False, 'AllOps', 'mc', 0),
                        ('Mixin', 12, 'Args12', False, True, 'AllOps', 'sim',
-                        250)],
+                        500),
+                       ('Diamond', 14, 'Args12', False, True, 'AllOps', 'sim',
+                        300)],
     ('C01', 'thorough'): [('Two', 6, 'Args12', False, True, 'AllOps', 'mc', 0),
                           ('Chain', 5, 'Args1', False, False, 'AllOps', 'mc',
                            0),
@@ -41,12 +43,14 @@ PLAN = {
                            'sim', 8000),
                           ('Diamond', 20, 'Args12', False, True, 'AllOps',
                            'sim', 8000)],
-    ('C19', 'quick'): [('Diamond', 5, 'Args1', True, False, 'ClassOps', 'mc',
+    ('C19', 'quick'): [('Diamond', 4, 'Args1', True, False, 'ClassOps', 'mc',
                         0),
-                       ('Mixin', 5, 'Args1', True, False, 'ClassOps', 'mc',
+                       ('Mixin', 4, 'Args1', True, False, 'ClassOps', 'mc',
                         0),
                        ('Mixin', 12, 'Args12', True, False, 'AllOps', 'sim',
-                        150)],
+                        400),
+                       ('Diamond', 12, 'Args12', True, False, 'AllOps', 'sim',
+                        200)],
     ('C19', 'thorough'): [('Diamond', 6, 'Args1', True, False, 'ClassOps',
                            'mc', 0),
                           ('Mixin', 6, 'Args1', True, False, 'ClassOps', 'mc',
@@ -57,7 +61,9 @@ PLAN = {
                            'sim', 5000)],
     ('C13', 'quick'): [('Two', 4, 'Args1', False, True, 'AllOps', 'mc', 0),
                        ('Chain', 10, 'Args12', False, True, 'AllOps', 'sim',
-                        100)],
+                        200),
+                       ('Mixin', 10, 'Args12', False, True, 'AllOps', 'sim',
+                        150)],
     ('C13', 'thorough'): [('Two', 5, 'Args12', False, True, 'AllOps', 'mc', 0),
                           ('Chain', 4, 'Args1', False, True, 'AllOps', 'mc',
                            0),
